@@ -512,11 +512,14 @@ _ure_prop_list(ucs2_t *pp, unsigned long limit, unsigned long *mask,
       break;
 
     /*
-     * If a property number greater than 32 occurs, then there is a
-     * problem.  Most likely a missing comma separator.
+     * If a property number greater than the last one in cclass_flags[]
+     * occurs, then there is a problem.  Most likely a missing comma
+     * separator.
      */
-    if (n > 32)
+    if (n >= sizeof(cclass_flags) / sizeof(cclass_flags[0])) {
       b->error = _URE_INVALID_PROPERTY;
+      n = 0;
+    }
   }
 
   if (n != 0)
